@@ -115,6 +115,7 @@ Hypothesis Hrb : parent_in w1 rb = PNone.
 Record MI (D Imp : list id) (w : world) : Prop := mkMI {
   mi_core : Core (mask D w);
   mi_roots : roots w = roots w1;
+  mi_next : w_next w = w_next w1;
   mi_dlist : forall p d, lists w p d -> In d D -> In p D;
   mi_dup : forall d, In d D -> base <= d /\ (d = rb \/ exists q, In q D /\ lists w1 q d);
   mi_kids : forall c, base <= c -> ~ Reach w r c -> kids_of w c = kids_of w1 c;
@@ -128,6 +129,7 @@ Proof.
   intros S M. pose proof S as (Sn & Sr & Ss). constructor.
   - eapply Core_same_tree; [apply same_tree_mask; exact S|apply M].
   - rewrite Sr. apply M.
+  - rewrite Sn. apply M.
   - intros p d Hl. apply (st_lists _ _ _ _ S) in Hl. eapply mi_dlist; eauto.
   - apply M.
   - intros c Hc Hnr. rewrite kids_of_skel, Ss, <- kids_of_skel. apply M; auto.
@@ -197,6 +199,7 @@ Proof.
   intros M HnD HnI Hb Hup. constructor.
   - eapply Core_mask_incl; [|apply M]. intros i Hi. right. auto.
   - apply M.
+  - apply M.
   - intros p d Hl [<-|Hd]; [|right; eapply mi_dlist; eauto].
     destruct (in_dec N.eq_dec p D) as [Hp|Hp]; [right; auto|]. exfalso.
     pose proof (MI_honest _ _ _ _ _ M Hp Hl) as Hpar. apply par_parent_in in Hpar as (Ha & Hpar).
@@ -258,6 +261,7 @@ Proof.
     + intros Hanc. apply ancs_mask in Hanc. apply Hxr. eapply MI_reach_up; eauto.
     + intros p Hl. apply lists_mask in Hl as (Hl & Hp). eapply (Hunl p); eauto. apply inb_notin. auto.
   - unfold w'. rewrite roots_wset. apply M.
+  - unfold w'. rewrite next_wset. apply M.
   - intros p d Hl. apply Hl' in Hl. eapply mi_dlist; eauto.
   - apply M.
   - intros c Hc Hnr. rewrite kids_of_skel. destruct (N.eq_dec c x) as [->|Hcx].
@@ -315,6 +319,7 @@ Proof.
       * intros Hc. apply Hnl. exists npa. auto.
     + intros c Hc. apply Hin in Hc as [->|Hc]; [right; apply par_mask; auto|left; auto].
   - unfold w'. rewrite roots_wset. apply M.
+  - unfold w'. rewrite next_wset. apply M.
   - intros p d Hl Hd. apply Hl' in Hl as [Hl|(-> & ->)]; [eapply mi_dlist; eauto|contradiction].
   - apply M.
   - intros c Hc Hnr. assert (c <> pa) by (intros ->; apply Hnr; auto).
